@@ -263,18 +263,22 @@ def line (cs : CState) (m : MState) (ss : Specs) (lhs : String) (rhs : String) :
     | "bbuild" =>
       match getK cs.builders n, f "into" with
       | some b, some c =>
-        ({ cs with builders := setK (delK cs.builders n) c { b with kind := .built } }, m, ss, cmpApi "ok d=[]" rhs)
+        -- a container already stored under the target name is dropped
+        let od := ((getK (delK cs.builders n) c).map (·.arena.vals)).getD []
+        ({ cs with builders := setK (delK cs.builders n) c { b with kind := .built } }, m, ss, cmpApi ("ok " ++ dstr od) rhs)
       | _, _ => fail (.err "bad bbuild")
     | "cback" =>
       match getK cs.builders n, f "into" with
       | some b, some c =>
-        ({ cs with builders := setK (delK cs.builders n) c { b with kind := .clone } }, m, ss, cmpApi "ok d=[]" rhs)
+        let od := ((getK (delK cs.builders n) c).map (·.arena.vals)).getD []
+        ({ cs with builders := setK (delK cs.builders n) c { b with kind := .clone } }, m, ss, cmpApi ("ok " ++ dstr od) rhs)
       | _, _ => fail (.err "bad cback")
     | "bclone" =>
       match getK cs.builders n, f "into" with
       | some b, some c =>
         let (cc', b') := b.cloneB cs.cc
-        ({ cs with builders := setK cs.builders c b', cc := cc' }, m, ss, cmpApi "ok d=[]" rhs)
+        let od := if c == n then [] else ((getK cs.builders c).map (·.arena.vals)).getD []
+        ({ cs with builders := setK cs.builders c b', cc := cc' }, m, ss, cmpApi ("ok " ++ dstr od) rhs)
       | _, _ => fail (.err "bad bclone")
     | "cspawn" =>
       match getK cs.builders n, args.head? with
